@@ -1,7 +1,10 @@
 use crate::util::Rng;
 use serde_json::Value;
 
+pub mod p04;
 pub mod p05;
+pub mod p19;
+pub mod p20;
 
 /// One property's binding to the real code.
 pub trait Prop {
@@ -21,7 +24,10 @@ pub trait Prop {
 
 pub fn get(name: &str) -> Option<Box<dyn Prop>> {
     match name {
+        "C04" => Some(Box::new(p04::P04::default())),
         "C05" => Some(Box::new(p05::P05::default())),
+        "C19" => Some(Box::new(p19::P19::default())),
+        "C20" => Some(Box::new(p20::P20::default())),
         _ => None,
     }
 }
